@@ -30,6 +30,35 @@ def free_port():
     return p
 
 
+def ipv6_target_extension(ctx):
+    """beyond the listed property (C16 quantifies over IPv4 targets): Mirror6.tla says what the mirror helpers build for an
+    IPv6 target and what a receiver needs; TLC refutes the latter for the as-built switches; the real helpers are compared
+    octet by octet with the model's as-built packet and each packet is sent to ::1.  Reported in the evidence, never a verdict."""
+    try:
+        r = ctx.tlc_model("Mirror6", "Mirror6.cfg", want_cases=True, workers=2)
+        ctx.tlc_must_fail("Mirror6", "Mirror6Faithful.cfg", expect="Faithful6", workers=2)
+        drv = ctx.go_build_test("mirror", ["mirror/ipv6_verif_test.go"])
+        d = ctx.subdir("c16v6")
+        cin, cout = os.path.join(d, "cases.ndjson"), os.path.join(d, "out.ndjson")
+        cases = sorted(r.cases, key=lambda c: c["n"])
+        vlib.write_ndjson(cin, cases)
+        rc, log, to = ctx.go_run(drv, "TestVerifMirror6", timeout=120, env={"VERIF_CASES": cin, "VERIF_OUT": cout})
+        got = vlib.read_ndjson(cout) if os.path.exists(cout) else []
+        same = 0
+        for c, g in zip(cases, got):
+            want = list(c["hdr"])
+            have = list(g["pkt"])
+            have[42:44] = want[42:44]        # the destination port is the listener's
+            same += want == have
+        ctx.extra["extension_ipv6_mirror_target"] = {
+            "cases": len(cases), "real_header_equals_model_as_built": same, "sent": sum(1 for g in got if g.get("sent")),
+            "delivered_to_a_udp_socket_on_::1": sum(1 for g in got if g.get("delivered")),
+            "send_errors": sorted({g.get("send_err") for g in got if g.get("send_err")}),
+            "note": "as built the IPv6 payload length field counts the 40-octet header too and the UDP checksum stays 0; Faithful6 is refuted by TLC"}
+    except vlib.Infra as e:
+        ctx.extra["extension_ipv6_mirror_target"] = {"not_run": str(e)[:300]}
+
+
 def check(ctx):
     thorough = ctx.tier == "thorough"
     ctx.rule = ("model: Mirror.tla builds the IPv4 + UDP + payload packet for EVERY payload length 0..max-udp-size and both source "
@@ -145,6 +174,7 @@ def check(ctx):
             ctx.violation("%s mirroring towards a target the mirror worker cannot send to: the worker stopped taking datagrams" % proto,
                           {"proto": proto}, key=proto + ":badtarget-stalled")
         ctx.traces_validated += 1
+    ipv6_target_extension(ctx)
     from props import c12, c15
     c15.full_queue_shutdown(ctx, thorough, ["ipfix", "sflow"], mirror=True)
     c12.check(ctx, want="C16")
